@@ -1,10 +1,14 @@
 """C01 — parsing is total.
-Proof (coq/C01): resolve_entity (chr domain explicit, caught exceptions regenerated from util.py), compute_path
-(<=32 states, fan-out <=6, path length = number of counts), and the index-walking loops of ParseUrls,
-ParseParagraphs, ParseSections, ParseSingleQuote, ParseLines within fuel 2*len+c.
-Tie: extracted models vs the real passes on the same abstract token lists (vt/harness/c01_passes.py).
-Search: grammar/mutation strings over the whole wikitext alphabet x 12 languages x template universes;
-oracle = parse_string returns an Article, raises nothing, stays within the CPU budget C0 + C*n^2."""
+Proof (coq/C01): resolve_entity (chr domain explicit, caught exceptions regenerated from util.py), compute_path with the
+de-duplication of states by (apocount, bold, italic) (<=32 states kept, fan-out <=6, <=192 states generated per step, path length =
+number of counts, for every tie-breaking order), and — coq/C01/Passes.v, ProofsPasses.v — the index-walking loops of the
+refinement passes with explicit termination measures.
+Tie: extracted models vs the real code: resolve_entity on entity strings; compute_path on count lists (real path is a successor chain
+of the model, states per step measured on the real code <= 192 and equal to the model's when no cut can occur, each case under a CPU
+budget); the passes on abstract token lists (vt/harness/c01_passes.py, c01_passtie.py).
+Search: grammar/mutation strings over the whole wikitext alphabet x 12 languages x template universes, plus the deterministic
+families `attrnum` (number-like Unicode attribute values x every construct that takes attributes) and `quoteruns` (10..60 apostrophe
+runs on one line); oracle = parse_string returns an Article, raises nothing, stays within the CPU budget C0 + C*n^2."""
 import collections
 import concurrent.futures as cf
 import json
@@ -199,6 +203,7 @@ def search(run, src):
     langs = collections.Counter()
     worst = (0.0, None)
     missing = 0
+    excluded = 0
     for c in cases:
         r = results.get(c["id"])
         if r is None:
@@ -213,6 +218,8 @@ def search(run, src):
         frac = r["cpu"] / (3.0 + 2e-6 * n * n)
         if frac > worst[0] and not r.get("fp"):
             worst = (frac, {"cpu_s": r["cpu"], "n": n, "raw_head": c["raw"][:80]})
+        if r.get("excluded"):
+            excluded += 1
         if r.get("fp"):
             by_fp[r["fp"]].append((len(c["raw"]), c["id"]))
         elif len(run.samples) < 5 and c["kind"] in ("grammar", "deep") and len(c["raw"]) < 160:
@@ -232,6 +239,7 @@ def search(run, src):
         len(G.alphabet()), "" if run.tier == "quick" else "; every ordered pair of alphabet tokens repeated")
     run.coverage["input_distribution"] = {"kinds": dict(dist), "expanded_length": dict(sizes), "languages": dict(langs),
                                           "max_length": maxlen, "template_universes": len(G.TEMPLATE_UNIVERSES),
+                                          "recursion_errors_excluded_because_expanded_nesting_exceeds_40": excluded,
                                           "failing_fingerprints": {k: len(v) for k, v in by_fp.items()}}
     run.coverage["cpu_budget"] = {"formula": "3.0 s + 2e-6 s * n^2 (CPU, n = max(len(raw), len(expanded text)))",
                                   "worst_fraction_of_budget_used_by_a_passing_input": round(worst[0], 4), "that_input": worst[1]}
@@ -240,20 +248,26 @@ def search(run, src):
 def check(run):
     run.rule = ("inputs = corpus + seed list + every alphabet token (markup, entities incl. out-of-range, control/non-BMP chars, links, "
                 "template calls, HTML/extension tags) alone and in (sampled: quick / all: thorough) ordered pairs repeated to the length "
-                "bound + random inputs: recursive grammar (sections, lists, tables, HTML blocks, extension elements, styles, links, refs, "
-                "templates), 1-4 random mutations of grammar outputs, token soup, one construct nested 5..40 deep, short units repeated; "
+                "bound + every number-like character (ASCII, Unicode digits that int() rejects, decimal digits of other scripts incl. non-BMP, "
+                "fractions/roman/ideographic numbers) as attribute value with sign/whitespace/quoting variants in every construct that takes "
+                "attributes (HTML tags, table/row/cell/caption modifiers, extension tags, #tag, image options) + one line with 10..60 apostrophe "
+                "runs of lengths 2..6 after each opener (plain / runs from a template) + random inputs: recursive grammar (sections, lists, tables, HTML blocks, extension elements, styles, links, refs, "
+                "templates), 1-4 random mutations of grammar outputs, token soup, one construct nested 5..40 deep, short units repeated, random attribute constructs, random lines of 10..60 quote runs; "
                 "each with one of 12 languages and one of 8 template universes (none, empty, or pages incl. self-recursive ones); "
                 "syntactic nesting measure <= 40; distinct = distinct (raw, lang, universe); non-trivial = contains a markup character")
     run.trusted = ["Coq 8.16.1 kernel (coqc); vm_compute in Examples/finite obligations only",
                    "extraction (ExtrOcamlBasic directives only) + ocaml/c01/driver.ml",
-                   "hand-written Gallina models of resolve_entity, State.get_next/compute_path and the index loops of five passes "
-                   "(coq/C01/Model.v); tied by differential runs only",
+                   "hand-written Gallina models of resolve_entity, State.get_next/compute_path (coq/C01/Model.v) and of the index loops of the "
+                   "refinement passes (coq/C01/Passes.v); tied by differential runs only",
                    "Python int()/chr() semantics: int(str, base) raises only ValueError; chr(i) raises OverflowError outside C int, "
                    "ValueError outside range(0x110000)",
                    "the harness's wiki database double (production interface of nuwiki.Adapt over a dict of pages)",
                    "CPU time as reported by time.process_time / ITIMER_VIRTUAL"]
-    run.assumptions = ["inputs are sequences of Unicode scalar values (no lone surrogates in the raw text), length <= 400 (quick) / 5000 (thorough)",
-                       "syntactic nesting <= 40 (deeper nesting exhausts the interpreter stack by construction and is excluded by the property)",
+    run.assumptions = ["inputs are sequences of Unicode scalar values (no lone surrogates in the raw text), length <= 400 (quick) / 5000 (thorough); "
+                       "the deterministic quote-run lines are up to 660 characters in both tiers",
+                       "syntactic nesting <= 40, of the raw text and of the text after template expansion (deeper nesting exhausts the interpreter "
+                       "stack by construction and is excluded by the property): a RecursionError on an input whose expanded text nests "
+                       "deeper is counted as excluded, not as a violation",
                        "time budget 3 s + 2e-6 s*n^2 CPU stands for 'polynomial, no blow-up'"]
     src = core.snapshot()
     try:
@@ -264,8 +278,10 @@ def check(run):
 
 
 def generate(src):
-    from vt.gen import c01_resolve
-    return c01_resolve.generate(src)
+    from vt.gen import c01_path, c01_resolve
+    r = c01_resolve.generate(src)
+    r.update(c01_path.generate(src))
+    return r
 
 
 def build():
